@@ -457,6 +457,17 @@ type commitEvent struct {
 	H    uint64
 	Hash string
 	Via  string
+	Hdr  *tmconsensus.Header // the header the node treats as committed, where the event shows it
+}
+
+// contentHash recomputes the block hash of a header the node holds from its content
+// (the shipped scheme itself is C15's subject and trusted here).
+func contentHash(h tmconsensus.Header) string {
+	b, err := msHS.Block(h)
+	if err != nil {
+		return "error: " + err.Error()
+	}
+	return string(b)
 }
 
 // detectCommits compares the observable commit state with the previous step.
@@ -471,7 +482,8 @@ func (s *sim) detectCommits() []commitEvent {
 		}
 		if _, seen := s.seenCommitted[h]; !seen {
 			s.seenCommitted[h] = string(ch.Header.Hash)
-			evs = append(evs, commitEvent{H: h, Hash: string(ch.Header.Hash), Via: "committed-header-store"})
+			hd := ch.Header
+			evs = append(evs, commitEvent{H: h, Hash: string(ch.Header.Hash), Via: "committed-header-store", Hdr: &hd})
 		}
 	}
 	// committing view
@@ -486,13 +498,15 @@ func (s *sim) detectCommits() []commitEvent {
 	// replay accepted in this step
 	for _, ro := range s.lastReplay {
 		if ro.Step == s.step && ro.Done && ro.Err == nil {
-			evs = append(evs, commitEvent{H: ro.B.H, Hash: string(ro.B.Header.Hash), Via: "replay-accepted"})
+			hd := ro.B.Header
+			evs = append(evs, commitEvent{H: ro.B.H, Hash: string(ro.B.Header.Hash), Via: "replay-accepted", Hdr: &hd})
 		}
 	}
 	// committed header handed to the state machine
 	for i := len(s.smRecv) - 1; i >= 0 && s.smRecv[i].Step == s.step; i-- {
 		if ch := s.smRecv[i].V.CH; ch != nil {
-			evs = append(evs, commitEvent{H: ch.Header.Height, Hash: string(ch.Header.Hash), Via: "handed-to-state-machine"})
+			hd := ch.Header
+			evs = append(evs, commitEvent{H: ch.Header.Height, Hash: string(ch.Header.Hash), Via: "handed-to-state-machine", Hdr: &hd})
 		}
 	}
 	return evs
@@ -591,6 +605,14 @@ func c01Oracle(s *sim, op Op, idx int) {
 			s.failf("", "nil-committed", "commit event (%s) at height %d for the nil hash", ev.Via, ev.H)
 			return
 		}
+		if ev.Hdr != nil {
+			// the certificate is for a block hash: the header committed under it must be that block
+			if got := contentHash(*ev.Hdr); got != ev.Hash {
+				s.failf("", "committed-content-not-the-certified-block", "height %d: the header treated as committed (%s) claims hash %s, its content hashes to %s - the precommits the node holds certify another block",
+					ev.H, ev.Via, hx([]byte(ev.Hash)), hx([]byte(got)))
+				return
+			}
+		}
 		best, total, detail := s.certificatePower(ev.H, ev.Hash)
 		if !exceedsTwoThirds(best, total) {
 			s.failf("", "commit-without-certificate", "height %d hash %s treated as committed (%s) but the node holds valid precommits for exactly that height/round/hash from prescribed validators with power %s of %s (need > 2/3):%s",
@@ -603,7 +625,7 @@ func c01Oracle(s *sim, op Op, idx int) {
 func c01Spec() propSpec {
 	return propSpec{
 		prop: "C01", test: "TestVerifC01CommitCertificate",
-		rule: "histories of 3-40 ops against one real Mirror weighted towards certificates: honest round macros with partial signer masks (below / at / above quorum), precommit messages with corruption, proposed headers with every previous-commit-proof variant (next-height headers that backfill a commit included), replayed headers of every variant (foreign validator list, forged powers, below quorum, bad signature, other height, extra nil entry), state machine entrances, concurrent groups; at every commit event (committing view, committed-header store, accepted replay, header handed to the state machine) the held precommits are re-verified with crypto/ed25519 under the prescribed set and summed in math/big; non-trivial = >=1 commit event and >=1 certificate that must be rejected was offered; distinct = fingerprint of (config, op list)",
+		rule: "histories of 3-40 ops against one real Mirror weighted towards certificates: honest round macros with partial signer masks (below / at / above quorum), precommit messages with corruption, proposed headers with every previous-commit-proof variant (next-height headers that backfill a commit included), replayed headers of every variant (foreign validator list, forged powers, below quorum, bad signature, other height, extra nil entry), state machine entrances, concurrent groups, fetch answers (genuine, forged validator lists, altered content under the requested hash) incl. the sequence lost proposal - votes - fetch - commit; at every commit event (committing view, committed-header store, accepted replay, header handed to the state machine) the committed header's content must hash to the certified block hash and the held precommits are re-verified with crypto/ed25519 under the prescribed set and summed in math/big; non-trivial = >=1 commit event and >=1 certificate that must be rejected was offered; distinct = fingerprint of (config, op list)",
 		profile: genProfile{
 			w:              map[string]int{"ph": 5, "vote": 8, "round": 6, "replay": 6, "sment": 1, "smact": 1, "conc": 1, "fetch": 2},
 			phVariants:     []int{phFresh, phFresh, phFresh, phAltNext, phBadSig, phWrongPrev, phForgedNext, phForgedCur},
@@ -613,7 +635,8 @@ func c01Spec() propSpec {
 			pkhVariants:    []int{0, 0, 0, 0, 1},
 			minOps:         3, maxOps: 40,
 			dh: []int{0, 0, 0, 0, 1, 1, -1}, dr: []int{0, 0, 0, 1},
-			multiTarget: true,
+			multiTarget:  true,
+			hostileFetch: true,
 		},
 		setup:  func(s *sim) { s.seenCommitted = map[uint64]string{}; s.seenCommitting = map[string]bool{} },
 		oracle: c01Oracle,
@@ -830,7 +853,7 @@ func c04Oracle(s *sim, op Op, idx int) {
 func c04Spec() propSpec {
 	return propSpec{
 		prop: "C04", test: "TestVerifC04CommittedChain",
-		rule: "histories of 4-45 ops over several heights: honest round macros, late / duplicated / conflicting but well-signed certificates aimed at committed heights (the harness owns all keys), proposed headers and replays whose PrevBlockHash does not match the committed predecessor, replays at old / current / future heights, next-height headers, concurrent groups, clean restarts; after every step: committed hash per height never changes, heights are contiguous from the initial height, stored and viewed voting positions never go backwards, voting height = committing height + 1, every stored header names the stored predecessor's hash; non-trivial = >=2 commits and >=1 input aimed at a committed height or carrying a mismatching PrevBlockHash; distinct = fingerprint of (config, op list)",
+		rule: "histories of 4-45 ops over several heights: honest round macros, late / duplicated / conflicting but well-signed certificates aimed at committed heights (the harness owns all keys), proposed headers and replays whose PrevBlockHash does not match the committed predecessor, replays at old / current / future heights, next-height headers, fetch answers (incl. a lost proposal with a wrong predecessor that is fetched while its votes are incomplete and then gets its quorum), concurrent groups, clean restarts; after every step: committed hash per height never changes, heights are contiguous from the initial height, stored and viewed voting positions never go backwards, voting height = committing height + 1, every stored header names the stored predecessor's hash; non-trivial = >=2 commits and >=1 input aimed at a committed height or carrying a mismatching PrevBlockHash; distinct = fingerprint of (config, op list)",
 		profile: genProfile{
 			w:              map[string]int{"ph": 6, "vote": 6, "round": 10, "replay": 5, "restart": 2, "conc": 1, "sment": 1, "fetch": 2},
 			phVariants:     []int{phFresh, phFresh, phWrongPrev, phWrongPrev, phAltNext},
@@ -839,7 +862,8 @@ func c04Spec() propSpec {
 			replayVariants: []int{rvHonest, rvHonest, rvWrongPrev, rvWrongPrev, rvOtherHeight, rvBelowQuorum, rvExtraNil},
 			minOps:         4, maxOps: 45,
 			dh: []int{0, 0, 0, -1, -1, -2, 1}, dr: []int{0, 0, 0, 1},
-			multiTarget: true,
+			multiTarget:  true,
+			hostileFetch: true,
 		},
 		setup:  func(s *sim) { s.c04Hash = map[uint64]string{} },
 		oracle: c04Oracle,
